@@ -39,12 +39,14 @@ DESCR += [(r"c17_._intertwine_n(\d)", "resolver output of n addresses, each symb
 
 PROPS["C11"] = dict(
     filters={"quick": ["c11_q", "c11_qtwin"], "thorough": ["c11_"]},
-    timeout_s={"quick": 400, "thorough": 1800},
+    timeout_s={"quick": 500, "thorough": 1800},
+    mem_gb=24, jobs={"quick": 10, "thorough": 8},
     kernel=["ProxySettings::for_url", "ProxySettingsBuilder::{new,http_proxy,https_proxy,add_no_proxy_host,build}",
             "ProxySettings::from_env", "get_env", "get_env_url", "url::Url::{host_str,scheme} on factory-built Urls"],
     bounds="domain hosts of 1..6 symbolic bytes over {a,b,.,-}; 0..2 no-proxy entries of 0..5 symbolic bytes over {a,b,A,B,.,-} "
            "(no leading dot); IPv4/IPv6 literal hosts with entries of 1..8 symbolic bytes; scheme, proxy presence, disable flag symbolic; unwind 12",
-    outside="non-ASCII hosts/entries (str::to_lowercase stubbed by an ASCII model); URLs outside the factory grammar; builder entries with a leading dot; suffix relation on IP literals",
+    outside="the environment clause (ProxySettings::from_env: precedence, NO_PROXY parsing) is NOT decided: not encodable within reach, see harness/proxy.rs; non-ASCII hosts/entries (str::to_lowercase stubbed by an ASCII model); URLs outside the factory grammar; builder entries with a leading dot; suffix relation on IP literals",
+    level_note="PARTIAL: for_url (on settings as the constructors leave them) and the builder (incl. composition builder -> for_url with mixed-case entries) are decided; ProxySettings::from_env is not.",
     stubs=["str::to_lowercase -> ASCII lowering", "Url built by the validated field mirror instead of Url::parse"],
     assumptions=["Url factory validated natively against Url::parse (tools/urlfactory)"],
 )
@@ -184,3 +186,18 @@ DESCR += [(r"c03_._content_length_len", "parse_content_length on every header va
           (r"c03_._content_length_\d+digits", "parse_content_length on every n-digit value: exact or refused, never wrapped"),
           (r"c03_._decide", "BodyReader::new on a header map built from the named Content-Length / Transfer-Encoding fields: framing variant and length"),
           (r"c03_._bodiless", "parse_response for HEAD / 1xx / 204 / 304 with stray bytes after the head: body must read as empty")]
+
+PROPS["C15"] = dict(
+    features=["multipart-form"],
+    filters={"quick": ["c15_q", "c15_qtwin"], "thorough": ["c15_"]},
+    timeout_s={"quick": 600, "thorough": 2400},
+    mem_gb=20,
+    kernel=["multipart_crate::lazy::PreparedFields::{read,boundary,from_fields (empty form)}", "PreparedField::read", "cursor_at_end"],
+    bounds="PreparedFields constructed directly with a text block of 0..3, up to two streams (header 0..3, data 0..5 bytes) and an end boundary of 0..4 symbolic bytes; caller read buffers 1,2,3,7,8; the empty form through the real from_fields",
+    level_note="PARTIAL (plan B of DESIGN.md): the copy state machine and the empty-form path are decided; the part layout written by from_fields (delimiter lines, Content-Disposition text) is NOT decided: it is built with format!/write! over Display arguments, which CBMC's symbolic execution does not get through (> 700 s). 'The boundary does not occur inside the data' is probabilistic (62^-16) and not decided.",
+    outside="layout of part headers; files added by path (FFI); data beyond 5 bytes per part",
+    stubs=["multipart_crate::gen_boundary -> fixed 16-character boundary"],
+    assumptions=[],
+)
+DESCR += [(r"c15_._read", "directly constructed PreparedFields (symbolic bytes) read to the end with a fixed caller buffer size: output equals text, streams (last first), end boundary, each once"),
+          (r"c15_._empty_form", "empty form through from_fields + boundary(): no panic, boundary returned")]
